@@ -84,14 +84,19 @@ ChkAddSubU(e, isAdd) ==
 RtTol(ae) == 1 + (IF ae >= 31 THEN Pow(2, ae - 31) ELSE 0)
 
 \* session constants of a `map` session: easing kind ek, lo < hi (1/g), olo/ohi (1/65536)
+\* (desc: the input range is written (hi, lo) - hi maps to the start of the output range, lo to its end)
 ChkMap(m, e) ==
-  LET c == m.cfg  dir == Sign(c.ohi - c.olo)
+  LET c == m.cfg
+      desc == "desc" \in DOMAIN c /\ c.desc
+      atLo == IF desc THEN c.ohi ELSE c.olo
+      atHi == IF desc THEN c.olo ELSE c.ohi
+      dir == Sign(atHi - atLo)
   IN IF e.p THEN "no_panic"
      ELSE IF m.n > 0 /\ e.x < m.lx THEN "harness_unsorted"
-     ELSE IF e.x <= c.lo /\ ~(e.yx /\ e.y = c.olo)
-            THEN (IF e.x = c.lo THEN "easing_maps_0_to_0" ELSE "mapping_clamps_input")
-     ELSE IF e.x >= c.hi /\ ~(e.yx /\ e.y = c.ohi)
-            THEN (IF e.x = c.hi THEN "easing_maps_1_to_1" ELSE "mapping_clamps_input")
+     ELSE IF e.x <= c.lo /\ ~(e.yx /\ e.y = atLo)
+            THEN (IF e.x = c.lo THEN (IF desc THEN "easing_maps_1_to_1" ELSE "easing_maps_0_to_0") ELSE "mapping_clamps_input")
+     ELSE IF e.x >= c.hi /\ ~(e.yx /\ e.y = atHi)
+            THEN (IF e.x = c.hi THEN (IF desc THEN "easing_maps_0_to_0" ELSE "easing_maps_1_to_1") ELSE "mapping_clamps_input")
      ELSE IF m.n > 0 /\ dir = 1 /\ ~LexLe(m.lh, m.ll, e.h, e.l) THEN "easing_monotone"
      ELSE IF m.n > 0 /\ dir = -1 /\ ~LexLe(e.h, e.l, m.lh, m.ll) THEN "easing_monotone"
      ELSE ""
@@ -123,11 +128,13 @@ ChkPan(m, e) ==
   ELSE IF ~Near(e.l14 * e.l14 + e.r14 * e.r14, 2 * S14 * S14, PanTol) THEN "pan_keeps_total_power"
   ELSE ""
 
+\* (ceq: the compound operator += / -= gave bit for bit what the binary operator gave)
+Compound(e, r) == IF r # "" THEN r ELSE IF "ceq" \in DOMAIN e /\ ~e.ceq THEN "compound_assignment_agrees_with_operator" ELSE ""
 Check(m, e) ==
-  CASE e.a = "add_f" -> ChkAddSubF(e, TRUE)
-    [] e.a = "sub_f" -> ChkAddSubF(e, FALSE)
-    [] e.a = "add_u" -> ChkAddSubU(e, TRUE)
-    [] e.a = "sub_u" -> ChkAddSubU(e, FALSE)
+  CASE e.a = "add_f" -> Compound(e, ChkAddSubF(e, TRUE))
+    [] e.a = "sub_f" -> Compound(e, ChkAddSubF(e, FALSE))
+    [] e.a = "add_u" -> Compound(e, ChkAddSubU(e, TRUE))
+    [] e.a = "sub_u" -> Compound(e, ChkAddSubU(e, FALSE))
     [] e.a = "cmp" ->
          IF e.p THEN "no_panic"
          ELSE IF e.c # Cmp(e.q, T1(e), <<e.t2, e.f2>>) THEN "order_agrees_with_ticks_plus_fraction" ELSE ""
